@@ -3,6 +3,7 @@
 -/
 import SV.Proofs.C08Cache
 import SV.Proofs.C08Witness
+import SV.Proofs.C10
 
 namespace SV.Props.C08
 open SV.Model.C08 SV.Spec.C08 SV.Proofs.C08
@@ -459,6 +460,24 @@ example : Reach Cfg.repaired wScopeDoc
     look-ups are then correct for all orders of complete iterations and look-ups whenever `lookupScope` is repaired;
     the witness above shows the as-found scope handling is not) -/
 example : wfDoc wMergeDoc = true ∧ uniqueIds Cfg.asFound wMergeDoc = true ∧ populateOk Cfg.asFound wMergeDoc = true := by
+  decide
+
+
+/-! ### the path named by a reference: `get_operation_by_reference` decodes the JSON-pointer segment -/
+
+/-- **A reference names its path.**  `#/paths/<escaped path>/<method>` is decoded with `.replace("~1", "/").replace("~0", "~")`
+    (the function `SV.Model.C10.unescape`, shared with the link expressions of C10): for every path text, also one that
+    itself contains `~`, `~0`, `~1` or `/`, decoding the escaped path gives the path back — so the look-up by reference is
+    made for the documented path, whatever characters it contains. -/
+theorem C08_reference_names_its_path (p : SV.Model.C10.Str) :
+    SV.Model.C10.unescape (SV.Spec.C10.escape p) = p :=
+  SV.Proofs.C10.unescape_escape p
+
+/-- the replacements in the other order are wrong exactly on paths that contain text looking like an escape:
+    `/f~1g` is written `~1f~01g` and would be read back as `/f/g` -/
+theorem C08_reference_swapped_decoding_false :
+    SV.Model.C10.unescapeSwapped (SV.Spec.C10.escape "/f~1g".toList) = "/f/g".toList ∧
+    SV.Model.C10.unescape (SV.Spec.C10.escape "/f~1g".toList) = "/f~1g".toList := by
   decide
 
 end SV.Props.C08
